@@ -185,7 +185,7 @@ def Checked (t : State) (m : Memo) (o : Obs) : Prop :=
 section Steps
 variable {P : Prog} {idOf : Nat → Nat} {r : Nat} {s : State} {m : Memo} {R : SemRes} {done : List Obs} {t : State}
 
-theorem mem_of_split {o : Obs} {rest : List Obs} (hs : m.obs = done ++ o :: rest) : o ∈ m.obs := by
+theorem dv_mem_of_split {o : Obs} {rest : List Obs} (hs : m.obs = done ++ o :: rest) : o ∈ m.obs := by
   rw [hs]; simp
 
 /-- the creator of a struct read: its handle was carried by an earlier query read, which is current -/
@@ -194,7 +194,7 @@ theorem Walk.handle (C : WalkCtx P idOf r s m R) (w : Walk P idOf r s m R done t
     (hd : o.dep = .field c ∨ o.dep = .spec c) : c < r ∧ memoSok t c ∧ ∃ sl, t.slots c = some sl := by
   have ok := w.inv.node r m w.mem
   have hlt : c < r := by
-    have := ok.rank o (mem_of_split hs) hout
+    have := ok.rank o (dv_mem_of_split hs) hout
     rcases hd with e | e <;> rw [e] at this <;> exact this
   have hd' : HdOk (fun _ => False) (done ++ o :: rest) := by rw [← hs]; exact ok.hd
   rcases hd_split c done _ o rest hd' hout hd with h | ⟨o', q', ho', hout', hd1, hv⟩
@@ -238,7 +238,7 @@ theorem Walk.add (C : WalkCtx P idOf r s m R) (w : Walk P idOf r s m R done t) {
 theorem Walk.checkUnrec (C : WalkCtx P idOf r s m R) (w : Walk P idOf r s m R done t) {o : Obs}
     {rest : List Obs} (hs : m.obs = done ++ o :: rest) (hout : o.out = false) (hrec : o.recd = false) :
     Checked t m o := by
-  have ho := mem_of_split hs
+  have ho := dv_mem_of_split hs
   have nok := w.inv.node r m w.mem
   have hcr : ∀ c, (o.dep = .field c ∨ o.dep = .spec c) → memoSok t c :=
     fun c hdc => (w.handle C hs hout hdc).2.1
@@ -259,7 +259,7 @@ theorem Walk.checkUnrec (C : WalkCtx P idOf r s m R) (w : Walk P idOf r s m R do
   obtain ⟨x, hx⟩ := hex
   obtain ⟨hv, h3⟩ := i6_plain' w.inv nok.obs o ho hout hrec x hx
   unfold Checked
-  exact ⟨sokDep_of_never w.inv hx h3 hcr, (fun h => by rw [hrec] at h; cases h), x, hx, Or.inr ⟨hrec, hv, h3⟩⟩
+  exact ⟨dv_sokDep_of_never w.inv hx h3 hcr, (fun h => by rw [hrec] at h; cases h), x, hx, Or.inr ⟨hrec, hv, h3⟩⟩
 
 /-- a recorded read: `maybe_changed_after` of the dependency.  Whatever the answer, the walk
     invariant holds afterwards; the answer "unchanged" makes the read checked. -/
@@ -269,7 +269,7 @@ theorem Walk.checkRec {mc : McaFn} (C : WalkCtx P idOf r s m R) (hmc : McaSpec P
     (hpn : (depChanged mc P.spec t o.dep m.va).1.panic = none) :
     Walk P idOf r s m R done (depChanged mc P.spec t o.dep m.va).1 ∧
     ((depChanged mc P.spec t o.dep m.va).2 = false → Checked (depChanged mc P.spec t o.dep m.va).1 m o) := by
-  have ho := mem_of_split hs
+  have ho := dv_mem_of_split hs
   have nok := w.inv.node r m w.mem
   unfold Checked
   cases hd : o.dep with
@@ -309,7 +309,7 @@ theorem Walk.checkRec {mc : McaFn} (C : WalkCtx P idOf r s m R) (hmc : McaSpec P
 
 /-! ### the output edge -/
 
-theorem memoSok_congr {a b : State} (hm : b.memos = a.memos) (hc : b.cur = a.cur) (hl : b.lch = a.lch) (c : Nat) :
+theorem dv_memoSok_congr {a b : State} (hm : b.memos = a.memos) (hc : b.cur = a.cur) (hl : b.lch = a.lch) (c : Nat) :
     memoSok b c ↔ memoSok a c := by
   simp only [memoSok, SOK, lc, hm, hc, hl]
 
@@ -343,7 +343,7 @@ theorem Walk.validate (C : WalkCtx P idOf r s m R) (VO : ValidateOutputOk P idOf
     (w : Walk P idOf r s m R done t) {o : Obs} {rest : List Obs} (hs : m.obs = done ++ o :: rest)
     (hout : o.out = true) :
     Walk P idOf r s m R (done ++ [o]) (markValidatedOutput t r r) := by
-  have ho := mem_of_split hs
+  have ho := dv_mem_of_split hs
   have hnsok := w.notSok C.hns
   -- the replay specifies and creates
   have hsp := replay_out_sp' r idOf _ _ none none R C.hR ⟨o, ho, hout⟩
@@ -378,7 +378,7 @@ theorem Walk.validate (C : WalkCtx P idOf r s m R) (VO : ValidateOutputOk P idOf
     obtain ⟨slc, h1, h2, h3⟩ := hb
     rw [(v8 c (by omega)).1] at h1
     rw [v3] at h2
-    exact w.nb c hc ⟨slc, h1, h2, fun h => h3 ((memoSok_congr v2 v3 v4 c).mpr h)⟩
+    exact w.nb c hc ⟨slc, h1, h2, fun h => h3 ((dv_memoSok_congr v2 v3 v4 c).mpr h)⟩
   · intro sl0 hsl0
     obtain ⟨sl1, h1, e1⟩ := w.slS sl0 hsl0
     rw [hsl] at h1; cases h1
@@ -398,7 +398,7 @@ theorem Walk.validate (C : WalkCtx P idOf r s m R) (VO : ValidateOutputOk P idOf
   · intro o' ho' hout'
     rcases List.mem_append.mp ho' with h | h
     · obtain ⟨x, hx, hc⟩ := w.stamp o' h hout'
-      exact ⟨x, (sokDep_info_ext hext (w.green o' h hout').sok hx).2, hc⟩
+      exact ⟨x, (dv_sokDep_info_ext hext (w.green o' h hout').sok hx).2, hc⟩
     · simp only [List.mem_singleton] at h; subst h; rw [hout] at hout'; cases hout'
   · intro o' ho' hp
     rcases List.mem_append.mp ho' with h | h
